@@ -4,7 +4,7 @@
  *   CASE <k>                      start of an independent case; PRNG reseeded from (seed, engine, k)
  *   T <op> <args...> => <result>  one operation as executed on the real library; h4model replays it
  *   ORACLE-FAIL key=<k> <text>    an implementation-side property oracle failed (model not involved)
- *   STAT <name> <int>             histogram counter (summed by the driver)
+ *   STAT <name> <int>             histogram counter (summed by the driver; a name starting with max_ is a maximum over the run)
  *   SAMPLE <text>                 a case written out for the evidence file
  * Usage of every engine binary:  <bin> <seed> <first_case> <ncases> [engine-specific...]
  */
